@@ -79,6 +79,132 @@ func extraWorkloads(r *mon.Run, rec *recorder) {
 	slicesOfLargerBuffers(r, rec)
 	lastBytesWithEOF(r, rec)
 	closeDuringReceive(r, rec)
+	mixedSizeSequences(r, rec)
+	stalledPeer(r, rec)
+}
+
+// stalledPeer: the peer stops reading in the middle of a frame for 2.5 s, then goes on (a busy
+// server, not a dead one). Whatever Send reports, the octets that reach the peer are whole frames
+// of payloads Send accepted — at most followed, at the very end, by the beginning of one that it
+// did not; never a piece of one frame followed by another frame.
+func stalledPeer(r *mon.Run, rec *recorder) {
+	var wg sync.WaitGroup
+	for run := 0; run < 3; run++ {
+		wg.Add(1)
+		go func(run int) {
+			defer wg.Done()
+			a, b := net.Pipe()
+			t := nbt.NewNBTTransportFromConn(a)
+			payloads := [][]byte{bytes.Repeat([]byte{0x11}, 300+run), bytes.Repeat([]byte{0x22}, 100), bytes.Repeat([]byte{0x33}, 7)}
+			var wire []byte
+			readerDone := make(chan struct{})
+			go func() {
+				defer close(readerDone)
+				buf := make([]byte, 4096)
+				first := true
+				for {
+					b.SetReadDeadline(time.Now().Add(8 * time.Second))
+					n, err := b.Read(buf[:[]int{10, 4, 150}[run]])
+					wire = append(wire, buf[:n]...)
+					if err != nil {
+						return
+					}
+					if first {
+						first = false
+						time.Sleep(2500 * time.Millisecond) // the stall, inside the first frame
+					}
+				}
+			}()
+			var accepted, refused [][]byte
+			for _, p := range payloads {
+				var err error
+				pan, _, _ := mon.Guard(func() { _, err = t.Send(p) })
+				f, _ := refEncode(p)
+				if !pan && err == nil {
+					accepted = append(accepted, f)
+				} else {
+					refused = append(refused, f)
+				}
+			}
+			mon.Guard(func() { t.Close() })
+			a.Close()
+			<-readerDone
+			b.Close()
+			rec.Eval(len(payloads))
+			var want []byte
+			for _, f := range accepted {
+				want = append(want, f...)
+			}
+			ok := bytes.HasPrefix(wire, want)
+			if ok && len(wire) > len(want) {
+				tail := wire[len(want):]
+				ok = false
+				for _, f := range refused {
+					if len(tail) < len(f) && bytes.HasPrefix(f, tail) {
+						ok = true
+					}
+				}
+			}
+			if !ok {
+				rec.Violation(run, "Send:stalled-peer:wire", sprintf("the peer paused 2.5 s inside the first frame and then read on: Send accepted %d of %d payloads, the peer received %d octets that are not the frames of the accepted payloads (first difference at %d)", len(accepted), len(payloads), len(wire), firstDiff(wire, want)),
+					map[string]any{"accepted": len(accepted), "wire_octets": len(wire), "wire_head": mon.Hex(wire)})
+			}
+			rec.Nontrivial(sprintf("stalled-peer|%d", run))
+		}(run)
+	}
+	wg.Wait()
+}
+
+// mixedSizeSequences: messages of very different sizes one after the other on one receiving
+// transport (a large one, then small ones, then the largest): each Receive returns the next
+// message exactly, and the end of the stream after the last one is an error.
+func mixedSizeSequences(r *mon.Run, rec *recorder) {
+	seqs := [][]int{{0x10005, 20, 0x1FFFF, 1, 0, 0xFFFF, 3}, {0x1FFFF, 0, 0x10000, 0xFFFF}, {5, 0x10000, 5}, {0x12345, 0x12345, 7, 0x12345}}
+	for t := 0; t < r.Pick(6, 40); t++ {
+		rng := r.Rand(fmt.Sprintf("mixed-sizes|%d", t))
+		var s []int
+		for k := 0; k < 3+rng.IntN(5); k++ {
+			s = append(s, []int{0, 1, 20, 300, 0xFFFF, 0x10000, 0x10001, 0x1FFFF, 0x10000 + rng.IntN(0xFFFF)}[rng.IntN(9)])
+		}
+		seqs = append(seqs, s)
+	}
+	for si, sizes := range seqs {
+		var stream []byte
+		var sent [][]byte
+		for k, n := range sizes {
+			p := make([]byte, n)
+			for i := range p {
+				p[i] = byte(i*13 + k*7 + si)
+			}
+			f, _ := refEncode(p)
+			stream = append(stream, f...)
+			sent = append(sent, p)
+		}
+		c := &faultConn{data: stream, failAt: len(stream) + 1, seg: []int{1 << 20, 1000, 7}[si%3]}
+		t := nbt.NewNBTTransportFromConn(c)
+		cs := map[string]any{"sizes": sizes}
+		for k := 0; k <= len(sent); k++ {
+			var got []byte
+			var err error
+			pan, pv, st := mon.Guard(func() { got, err = t.Receive() })
+			rec.Eval(1)
+			if pan {
+				rec.Violation(si, "Receive:mixed-sizes:panic", sprintf("panic %v at %s", pv, mon.TopLibFrame(st)), cs)
+				break
+			}
+			if k == len(sent) {
+				if err == nil {
+					rec.Violation(si, "Receive:mixed-sizes:fabricated", sprintf("after the %d messages of sizes %v the stream ends; Receive returned a %d-octet message and no error", len(sent), sizes, len(got)), cs)
+				}
+				break
+			}
+			if err != nil || !bytes.Equal(got, sent[k]) {
+				rec.Violation(si, "Receive:mixed-sizes:value", sprintf("messages of sizes %v on one transport: Receive #%d returned %d octets (err %v), message #%d has %d octets", sizes, k+1, len(got), err, k+1, len(sent[k])), cs)
+				break
+			}
+		}
+		rec.Nontrivial(sprintf("mixed-sizes|%d", si))
+	}
 }
 
 // closeDuringReceive: the owner of a transport closes it from another goroutine while Receive is
